@@ -217,6 +217,43 @@ pub fn run_c05_wire(ctx: &Ctx) {
             }
         }
     }
+    // well-formed upstream replies that arrive late on the shared upstream TCP connection
+    // (after 3.5 s and 6.5 s; thorough also 12 s and 31 s): whatever the forwarder has told the
+    // client meanwhile, the late reply is one more input to its upstream-facing handler, which
+    // must survive it and keep serving the TCP path
+    for delay in if ctx.tier == Tier::Quick { vec![3500u64, 6500] } else { vec![3500, 6500, 12_000, 31_000] } {
+        let mut out = Outcome::default();
+        out.nontrivial = true;
+        out.class("late-upstream-reply-over-tcp");
+        let case = serde_json::json!({"upstream_tcp_reply_delayed_ms": delay});
+        let name = vec![unique_label(), b"late".to_vec(), b"test".to_vec()];
+        let q = dns::query(0x7e00, &name, 1, 1, true, None);
+        rig.ups[0].state.set(qkey(&q.questions[0]), Script { delay_ms: delay, ..Default::default() });
+        let started = std::time::Instant::now();
+        {
+            let _g = rig.tcp_serial.lock().unwrap();
+            let _ = tcp_exchange_linger(None, rig.target(false), &dns::encode(&q, dns::Compress::Off), &[], Duration::from_millis(delay + 2500), Duration::from_millis(50));
+        }
+        // the client may have been answered (or told SERVFAIL) before the reply came: outwait it
+        let due = Duration::from_millis(delay + 700);
+        if started.elapsed() < due {
+            std::thread::sleep(due - started.elapsed());
+        }
+        if let Some(h) = rig.health() {
+            out.fail(h.sig, format!("after an upstream TCP reply that took {} ms: {}", delay, h.detail));
+        } else if let Err(e) = prop.probe() {
+            out.fail("C05:service-stopped-answering", format!("after an upstream TCP reply that took {} ms: {}", delay, e));
+        }
+        ctx.record(prop.sub(), &case, &out);
+        if let Some(f) = out.fail {
+            if ctx.is_known(&f.sig) {
+                ctx.known_hit(&f.sig);
+            } else {
+                ctx.violation(prop.sub(), &f, &case);
+                return;
+            }
+        }
+    }
     run_wire(ctx, &prop, hostile_batch_strategy(), ctx.tier.pick(16, 400), 1);
 }
 
@@ -444,6 +481,10 @@ fn wire_pfx_strategy() -> impl Strategy<Value = acl::Pfx> {
             let m: u128 = u128::MAX << (128 - len as u32);
             acl::Pfx { ip: IpAddr::V6(Ipv6Addr::from(if hb { a } else { a & m })), len }
         }),
+        // IPv6 prefixes short enough to contain (up to /80) or just miss (/81../95) the whole
+        // IPv4-mapped range: an IPv4 client on the dual-stack socket is inside the former
+        2 => prop_oneof![Just(0u8), Just(1), Just(8), Just(32), Just(64), Just(79), Just(80), Just(81), Just(95)]
+            .prop_map(|len| acl::Pfx { ip: IpAddr::V6(Ipv6Addr::UNSPECIFIED), len }),
     ]
 }
 
@@ -1027,6 +1068,84 @@ pub fn run_c16_wire(ctx: &Ctx) {
                         if let Some(p) = server.panics().first() {
                             out.fail("server-panic", p.clone());
                         }
+                    }
+                }
+            }
+        }
+        ctx.record(prop.sub(), &case, &out);
+        if let Some(f) = out.fail {
+            if ctx.is_known(&f.sig) {
+                ctx.known_hit(&f.sig);
+            } else {
+                ctx.violation(prop.sub(), &f, &case);
+                return;
+            }
+        }
+    }
+    // REFUSED responses of every size: the upstream refuses with 0..180 records (42..3000
+    // octets) and the forwarder relays that to a source without a cookie that advertises 4096
+    // octets; six questions at once per size, a fresh source per size.  A REFUSED costs at least
+    // as many tokens as it has octets, so the octets sent to one source stay within
+    // burst + rate x time whatever the size of each response.
+    {
+        let mut out = Outcome::default();
+        out.nontrivial = true;
+        out.class("relayed-refused-responses-of-every-size");
+        let sizes = [0usize, 4, 12, 20, 30, 45, 70, 100, 140, 180];
+        let case = serde_json::json!({"relayed_refused_with_records": sizes, "questions_per_size": 6});
+        match prop.start_server() {
+            Err(e) => out.fail("rig-error", e),
+            Ok((server, port)) => {
+                for (si, nrec) in sizes.iter().enumerate() {
+                    let src = IpAddr::V4(Ipv4Addr::new(127, 81, 0, 1 + si as u8));
+                    let dst = SocketAddr::new(IpAddr::V4(Ipv4Addr::LOCALHOST), port);
+                    let t0 = std::time::Instant::now();
+                    let got: Vec<(usize, usize)> = std::thread::scope(|sc| {
+                        let hs: Vec<_> = (0..6)
+                            .map(|k| {
+                                let up = &prop.up;
+                                sc.spawn(move || {
+                                    let name = vec![unique_label(), format!("r{}", k).into_bytes(), b"refusing".to_vec(), b"test".to_vec()];
+                                    let e = dns::Edns { udp_size: 4096, ext_rcode: 0, version: 0, do_bit: false, options: vec![] };
+                                    let q = dns::query(0x5e00 + k as u16, &name, 1, 1, true, Some(e));
+                                    let mut m = dns::Message {
+                                        header: dns::Header { qr: true, rd: true, ra: true, rcode: 5, ..Default::default() },
+                                        questions: q.questions.clone(),
+                                        ..Default::default()
+                                    };
+                                    for r in 0..*nrec {
+                                        m.answer.push(dns::Rr { name: name.clone(), rtype: 1, class: 1, ttl: 60, rdata: dns::RData::Raw(vec![192, 0, 2, r as u8]) });
+                                    }
+                                    up.state.set(qkey(&q.questions[0]), Script { reply: Reply::Model(m, dns::Compress::All), ..Default::default() });
+                                    let b = dns::encode(&q, dns::Compress::Off);
+                                    let got = udp_exchange(src, dst, &b, Duration::from_millis(1200), Duration::from_millis(50)).unwrap_or_default();
+                                    let refused: Vec<&Got> = got.iter().filter(|g| is_refused(g)).collect();
+                                    (refused.len(), refused.iter().map(|g| g.bytes.len()).sum::<usize>())
+                                })
+                            })
+                            .collect();
+                        hs.into_iter().map(|h| h.join().unwrap()).collect()
+                    });
+                    let count: usize = got.iter().map(|g| g.0).sum();
+                    let octets: usize = got.iter().map(|g| g.1).sum();
+                    let allowed = 2000.0 + 4.0 * (t0.elapsed().as_secs_f64() + 1.0) + 16.0;
+                    if octets as f64 > allowed {
+                        out.fail(
+                            "C16:refused-octets-over-budget",
+                            format!(
+                                "{} got {} REFUSED responses, {} octets in all, for six questions the upstream refuses with {} records each; burst + rate x time allows {:.0} octets",
+                                src, count, octets, nrec, allowed
+                            ),
+                        );
+                        break;
+                    }
+                    if count > 0 {
+                        out.class("relayed-refused-delivered");
+                    }
+                }
+                if out.fail.is_none() {
+                    if let Some(p) = server.panics().first() {
+                        out.fail("server-panic", p.clone());
                     }
                 }
             }
